@@ -348,6 +348,10 @@ impl Expr {
             Expr::UnaryUnwrap { value, span: _ } => {
                 let ty = value.for_type(flags)?;
 
+                if let TypeLayout::Void = ty.disregard_distractors(true) {
+                    bail!("`get` needs a value, but this function call returns void")
+                }
+
                 if let (true, Some(ty)) = ty.is_optional() {
                     return Ok(ty.clone().into_owned());
                 }
